@@ -368,8 +368,10 @@ func main() {
 			if !tagMustDiffer(base.Proto, name) {
 				continue // the property only lists this parameter for the CMP protocols
 			}
-			replayPair(A, base, pclass, ta == tb, res)
-			replayPair(base, A, pclass, ta == tb, res)
+			okAB := replayPair(A, base, pclass, ta == tb, res)
+			okBA := replayPair(base, A, pclass, ta == tb, res)
+			res.Sample(map[string]interface{}{"session_B": base.String(), "session_A": A.String(), "differs_in": name, "tags_differ": ta != tb,
+				"all_messages_of_A_at_all_points_of_B_are_no_ops": okAB, "and_vice_versa": okBA})
 		}
 		// cross-protocol pairs with identical other parameters
 		for _, other := range bases() {
